@@ -40,7 +40,50 @@ fn end_time(h: &rosu_pp::model::hit_object::HitObject) -> f64 {
     }
 }
 
+/// Tempo sections whose accumulated durations are equal in decimal arithmetic (times with two
+/// decimals) but, summed as f64 differences, typically differ in the last place: near-ties.
+fn gen_bpm_near_tie_text(rng: &mut Rng) -> String {
+    let mut t = String::from("osu file format v14\n\n[General]\nMode: 0\n\n[TimingPoints]\n");
+    let pool = [500.0, 400.0, 375.0, 333.333, 250.0, 1000.0];
+    let k = 3 + rng.below(2) as usize;
+    let start = rng.below(pool.len() as u64) as usize;
+    let total_cs = 1_000_000 + rng.below(4_000_000) as i64; // per tempo, in 1/100 ms
+    let pieces = 2 + rng.below(2) as usize;
+    // cut points per tempo
+    let cuts: Vec<Vec<i64>> = (0..k)
+        .map(|_| {
+            let mut c: Vec<i64> = (0..pieces - 1).map(|_| 1 + rng.below(total_cs as u64 - 1) as i64).collect();
+            c.sort_unstable();
+            let mut lens = Vec::new();
+            let mut prev = 0;
+            for x in c {
+                lens.push(x - prev);
+                prev = x;
+            }
+            lens.push(total_cs - prev);
+            lens
+        })
+        .collect();
+    let mut time_cs: i64 = if rng.chance(1, 2) { 0 } else { rng.below(100_000) as i64 };
+    let fmt = |cs: i64| format!("{}.{:02}", cs / 100, cs % 100);
+    // the first timing point is forced to start at 0 by bpm(): keep it there
+    time_cs = if time_cs < 100 { 0 } else { 0 };
+    for p in 0..pieces {
+        for (j, lens) in cuts.iter().enumerate() {
+            let bl = pool[(start + j) % pool.len()];
+            writeln!(t, "{},{bl},4,2,0,60,1,0", fmt(time_cs)).unwrap();
+            time_cs += lens[p].max(1);
+        }
+    }
+    t.push_str("\n[HitObjects]\n");
+    writeln!(t, "256,192,{},1,0,0:0:0:0:", fmt(time_cs)).unwrap();
+    t
+}
+
 fn gen_bpm_text(rng: &mut Rng) -> String {
+    if rng.chance(1, 3) {
+        return gen_bpm_near_tie_text(rng);
+    }
     let mut t = String::from("osu file format v14\n\n[General]\nMode: 0\n\n[TimingPoints]\n");
     let n = rng.below(8);
     let pool = [500.0, 250.0, 333.333, 500.0004, 1000.0, 250.0002, 499.9996, 375.0];
@@ -311,6 +354,62 @@ pub fn det_group(rng: &mut Rng, max_objects: usize, group: usize) -> Vec<String>
                 _ => fails[i].push(format!("panic on only one of: map edited in place ({what}) / its clone")),
             }
             m = edited.map;
+        }
+    }
+    // interleaved instances: two gradual calculators (different maps / settings) stepped
+    // alternately on this thread must each produce the sequence they produce alone
+    for i in 0..jobs.len().saturating_sub(1) {
+        let (ja, jb) = (&jobs[i], &jobs[i + 1]);
+        let want = |k: usize, name: &str| -> Option<String> {
+            reference[k].as_ref().and_then(|r| r.iter().find(|(n, _)| *n == name).map(|(_, v)| v.clone()))
+        };
+        let (Some(wa), Some(wb)) = (want(i, "gradual difficulty"), want(i + 1, "gradual difficulty")) else {
+            continue;
+        };
+        let res = catch_unwind(AssertUnwindSafe(|| {
+            let mut ga = GradualDifficulty::new_with_mode(reused[i].clone(), &ja.map, mode_of(ja.target)).ok()?;
+            let mut gb = GradualDifficulty::new_with_mode(reused[i + 1].clone(), &jb.map, mode_of(jb.target)).ok()?;
+            // the same cut-off as in `signatures` (the reference sequences were recorded with it)
+            let bound = |j: &Job, d: &Difficulty| {
+                j.map.convert_ref(mode_of(j.target), &d.clone().inspect().mods).map(|c| c.hit_objects.len() * 3 + 8).unwrap_or(0)
+            };
+            let (ba, bb) = (bound(ja, &reused[i]), bound(jb, &reused[i + 1]));
+            let (mut va, mut vb) = (Vec::new(), Vec::new());
+            let (mut da, mut db) = (false, false);
+            while !(da && db) {
+                if !da {
+                    match ga.next() {
+                        Some(a) => {
+                            va.push(a.json());
+                            da = va.len() > ba;
+                        }
+                        None => da = true,
+                    }
+                }
+                if !db {
+                    match gb.next() {
+                        Some(a) => {
+                            vb.push(a.json());
+                            db = vb.len() > bb;
+                        }
+                        None => db = true,
+                    }
+                }
+            }
+            Some((format!("{:016x}", fnv(&arr(va))), format!("{:016x}", fnv(&arr(vb)))))
+        }));
+        evals[i] += 1;
+        match res {
+            Ok(Some((a, b))) => {
+                if a != wa && fails[i].len() < 4 {
+                    fails[i].push("gradual difficulty stepped alternately with another calculator on the same thread differs from stepping it alone".to_string());
+                }
+                if b != wb && fails[i + 1].len() < 4 {
+                    fails[i + 1].push("gradual difficulty stepped alternately with another calculator on the same thread differs from stepping it alone".to_string());
+                }
+            }
+            Ok(None) => {}
+            Err(e) => fails[i].push(format!("panic while interleaving two gradual calculators: {}", panic_msg(e))),
         }
     }
     jobs.iter()
